@@ -87,6 +87,7 @@ class EngineBase(PathMgr):
         return s
 
     def get_seq(self, v):
+        v = self.canon(v)
         seq = self.strip_fresh(self.st.seq) if self.is_old(v) else self.st.seq
         return smt.simp(z3.Select(seq, Val.r(v)))
 
@@ -228,6 +229,21 @@ class EngineBase(PathMgr):
                         best = K
                 self.set_class(v, best, exact=False)
                 return best
+            # type-case split over the (finitely many) exact classes the value can have on this path
+            cid = smt.cls_of(Val.r(v))
+            poss = []
+            for kid in sorted(self.classes_used, reverse=True):
+                K = self.static_objs[kid]
+                if K.name in ('object', 'type', 'function'):
+                    continue
+                if self.feasible(cid == kid):
+                    poss.append(K)
+            if poss and len(poss) <= 6:
+                rest = z3.And(*[cid != K.cid for K in poss])
+                if not self.feasible(rest):
+                    K = poss[self.choose([cid == K.cid for K in poss])]
+                    self.set_class(v, K, exact=True)
+                    return K
             self.unsupported(f'class of value unknown: {what or smt.simp(v)}')
         return c
 
